@@ -12,14 +12,15 @@ from vlib.hyp import Failure, Outcome, Stats, search, derive_seed
 
 RULE = ('cases = (solver in the 11 functions or dispatch method 0..10, '
         'rho_l, rho_r, p_l, p_r log-uniform over [1e-6,1e6] incl. equal '
-        'sides, one equal quantity (p, rho or u), mirror-symmetric data, extreme '
-        'ratios, vacuum-generating and nearly vacuum-generating velocities, '
-        'u_l,u_r in multiples of the sound speed, gamma in (1,3], niter in '
-        '[1,100], tol in [1e-12,1e-2]); every case runs as Python (double and '
-        '60-digit, positional or keyword call, result buffer pre-filled with '
-        'garbage) and through the transpiled riemann_solve of a compiled '
-        'equation (checks/c15_eqs.py). Non-trivial = sides differ (p_l != '
-        'p_r or u_l != u_r) and the solver reports success; distinct by case '
+        'sides, one equal quantity (p, rho or u), mirror-symmetric data, '
+        'extreme ratios, vacuum-generating and nearly vacuum-generating '
+        'velocities, u_l,u_r in multiples of the sound speed, gamma in '
+        '(1,3], niter in [1,100], tol in [1e-12,1e-2]); every case runs '
+        'as Python (double and 60-digit, positional or keyword call, '
+        'result buffer pre-filled with garbage) and through the '
+        'transpiled riemann_solve of a compiled equation '
+        '(checks/c15_eqs.py). Non-trivial = sides differ (p_l != p_r or '
+        'u_l != u_r) and the solver reports success; distinct by case '
         'hash.')
 ASSUMPTIONS = [
     'an exception raised by the pure-Python helper paths (printf with two '
@@ -240,10 +241,24 @@ def transpiled(method, a, b):
     swallowed = []
     hook = sys.unraisablehook
     sys.unraisablehook = lambda u: swallowed.append(1)
+    # the generated code also prints every swallowed exception on the C
+    # level stderr (70 MB per thorough shard): silenced for the iterative
+    # solvers, the only ones that raise
+    quiet = method in (1, 2)
+    if quiet:
+        import os
+        sys.stderr.flush()
+        if 'null' not in _EV:
+            _EV['null'] = os.open(os.devnull, os.O_WRONLY)
+        saved = os.dup(2)
+        os.dup2(_EV['null'], 2)
     try:
         ev.evaluate()
     finally:
         sys.unraisablehook = hook
+        if quiet:
+            os.dup2(saved, 2)
+            os.close(saved)
     out = []
     for i in range(3):
         rc = float(pa.rc[i])
@@ -375,13 +390,13 @@ def check(case):
         labels.append('dispatch')
     rc, p, u = call(name, a, method=method)
 
-    def same(x, y):
+    def same_val(x, y):
         return x == y or (x != x and y != y)
     if case.get('keywords'):
         # documented parameter names: the keyword call is the same call
         labels.append('call:keywords')
         krc, kp, ku = call(name, a, method=method, keywords=True)
-        if not (krc == rc and same(kp, p) and same(ku, u)):
+        if not (krc == rc and same_val(kp, p) and same_val(ku, u)):
             F('call_form', 'keyword call -> %r but positional call -> %r' % (
                 (krc, kp, ku), (rc, p, u)))
     if case['kind'] in ('eqp', 'eqrho', 'equ', 'mirror', 'near_vacuum'):
@@ -497,13 +512,13 @@ def check(case):
         (c_a, c_b, c_sod), swallowed = tr
         sw_a = sw_b = 0
         if swallowed:
-            # KNOWN DEFECT of the unchanged tree (reported, replay
-            # /var/tmp/audC08/C15-transpiled-exact-swallowed-pow.json): the
-            # generated Cython evaluates `x**y` with Python semantics; where
-            # Python raises (negative or denormal Newton iterate in
-            # prefun_exact) the noexcept helper returns without writing its
-            # result and `exact` goes on with stale f, f'.  Which problem did
-            # that is found by running each one alone.
+            # the generated helpers are noexcept: an exception inside one
+            # is printed and the helper returns without writing its result.
+            # (Before the cpow=True repair of the template, `x**y` with a
+            # negative or denormal Newton iterate did that in prefun_exact
+            # and `exact` reported success with a stale f, f':
+            # replays/C15/transpiled_exact_swallowed_pow.json.)  Counted;
+            # whatever such a run returns is compared like any other.
             labels.append('transpiled:swallowed_exception')
             sw_a = transpiled(METHOD[name], a, SOD)[1]
             sw_b = transpiled(METHOD[name], SOD, b)[1]
@@ -519,14 +534,7 @@ def check(case):
             prc, pp, pu = py
             crc, cp, cu = cc
             if crc == 0 and (sw_a if tag == 'case' else sw_b):
-                # exactly the class of the known defect: success reported
-                # by a run that swallowed an exception; nothing is asserted
-                # of it (counted)
-                labels.append('transpiled:excluded_success_after_'
-                              'swallowed_exception')
-                if tag == 'case':
-                    c_a = None
-                continue
+                labels.append('transpiled:success_after_swallowed_exception')
             if crc not in (0, 1):
                 F('return_code', 'transpiled run returned %r (documented: 0 '
                   'or 1)' % (crc,), run='transpiled')
